@@ -113,7 +113,9 @@ func vStubRunRecover(f func()) bool {
 }
 
 // XML serialisation of the MPD is outside: the stub reports a written document
-func vStubMPDWrite(mpd *m.MPD, w io.Writer, indent string, withHeader bool) (int, error) { return 1, nil }
+func vStubMPDWrite(mpd *m.MPD, w io.Writer, indent string, withHeader bool) (int, error) {
+	return 1, nil
+}
 
 func vHTTPServer(a *asset) *Server {
 	am := &assetMgr{vodFS: os.DirFS("testdata/assets"), assets: map[string]*asset{a.AssetPath: a}}
@@ -329,6 +331,7 @@ func init() {
 	vHarnesses["vH_C08_url_one_audio"] = vH_C08_url_one_audio
 	vHarnesses["vH_C08_url_two_seg"] = vH_C08_url_two_seg
 	vHarnesses["vH_C08_url_baseurl"] = vH_C08_url_baseurl
+	vHarnesses["vH_C08_url_bigseg"] = vH_C08_url_bigseg
 	vHarnesses["vH_C08_url_after_bad"] = vH_C08_url_after_bad
 	vHarnesses["vH_C08_url_one_mpd"] = vH_C08_url_one_mpd
 	vHarnesses["vH_C08_url_startstop_mpd"] = vH_C08_url_startstop_mpd
@@ -341,6 +344,9 @@ func vH_C08_url_one_init()  { vC08URL(1, 1) }
 func vH_C08_url_one_audio() { vC08URL(1, 2) }
 func vH_C08_url_two_seg()   { vC08URL(2, 0) }
 func vH_C08_url_baseurl()   { vC08URL(1, 3) }
+
+// video segment numbers around and beyond 2^32 (the number is narrowed to 32 bits on the way) with any start number
+func vH_C08_url_bigseg() { vC08URL(0, 7) }
 
 // MPD requests (the real LiveMPD behind the real handler; small time-shift window so that the timeline loops stay
 // within the unwinding bound): one arbitrary parameter, alone and together with periods_60
@@ -414,6 +420,10 @@ func vC08URL(nParams, target int) {
 		path = "/livesim2/tsbd_4/" + params + "testpic_2s/Manifest.mpd"
 	case 5:
 		path = "/livesim2/tsbd_4/periods_60/" + params + "testpic_2s/Manifest.mpd"
+	case 7:
+		big := vInt("bigSeg", 1<<32-4, 1<<34)
+		vStubRep, vStubSegID = a.Reps["V300"], big
+		path = "/livesim2/" + vStrf("snr_%d/", vInt("snr", 0, 1<<20)) + vStrf("testpic_2s/V300/%d.m4s", big)
 	case 3:
 		vStubRep, vStubSegID = a.Reps["V300"], segID
 		bu := vInt("bu", 0, 1<<62)
